@@ -29,25 +29,59 @@ GEN_DEPS = ["GenPairing"]
 RULE = ("probability vectors: 8 dyadic classes (uniform, one dominant, many zeros, ties, geometric, k/256 multiples, tiny entries, "
         "random) of length 1..400, non-dyadic vectors for the oracle; uniforms: breakpoints of the implementation's tables -/+ one "
         "step, 0, 1-2^-53, random dyadics; chains: dyadic step measures on uniform grids through MarkovChainProcess for every "
-        "SamplingMethod; inversion histories of 1..200 draws in 5 orders with _max_storage in {1,2,3,5,default}. non-trivial = "
-        "distinct (sampler, vector/chain, uniform) with >= 3 states")
+        "SamplingMethod and 2-d independent/dependent copula chains (centred and non-centred grids) through MarkovChainLevyCopula; "
+        "inversion histories of 1..200 draws in 5 orders with _max_storage in {1,2,3,5,..,default}. non-trivial = distinct "
+        "(sampler, vector/chain, uniform) with >= 3 states")
 MODELLED = [
     "numpy arrays / collections.deque / Python lists as Coq lists (alias deques right-to-left); np.uint(ku) as floor; int(x) as truncation",
     "list.sort(key, reverse=True) as a stable decreasing insertion sort; bisect.bisect_left by its binary-search loop",
     "functools.lru_cache of BinarySearchTreeAdapted1D._compute_probability and functools.cache of PairingToZ1d.project as the identity on pure functions",
     "TableMethod: the byte i & 255 and the alias uniform i / 2^32 are modelled as independent inputs (the dependence through the shared 32-bit word is bounded on paper by K * 2^-24, not proved)",
-    "BinarySearchTreeAdapted (n-d, Levy copula chains) and INVERSION on n-d grids: no Coq model; covered by the implementation-only oracle on a 2-d independent-copula chain",
-    "float arithmetic: theorems are over Q; exact agreement is checked on dyadic inputs where every float operation of the samplers is exact; non-dyadic vectors are checked by the oracle with tolerance 1e-9",
+    "BinarySearchTreeAdapted (n-d, Levy copula chains): no Coq model; covered by the implementation-only oracle on 2-d independent / completely dependent copula chains (law, never origin / out of grid / zero probability, two draw orders)",
+    "InversionMethod on n-d grids: Model/Inversion.v with the enumeration zd2_project szudzik and the probability table fed as data (correspondence); theorems only for enumerations without inadmissible index",
+    "float arithmetic: theorems are over Q; exact agreement is checked on dyadic inputs where every float operation of the samplers is exact; non-dyadic vectors and non-dyadic intensities are checked by the oracle with tolerance 1e-9",
+    "Qred in Model/Table.v (reduction to lowest terms, Qred x == x) only keeps vm_compute fast",
 ]
 ASSUMPTIONS = [
-    "probability vector entries are >= 0 (zeros and ties allowed); for the 'never zero-probability' and length statements the uniform satisfies 0 <= u < sum p (alias: sum p = 1)",
-    "C02_inversion_*: every index 0..F of the enumeration is admissible (1-d chains built by the factory: Boundary() and PairingToZ1d; discharged for the pairing by C14_z1d_project) and _max_storage >= 1",
-    "C02_bstadapted1d_law: mass is additive and non-negative on ordered intervals (discharged for the closed forms by C09), cell boundaries are ordered, the left-tail mass equals the mass of the left axis cells (C01/C13)",
+    "probability vector entries are >= 0 (zeros and ties allowed), length >= 1; uniforms 0 <= u < sum p (alias, table: sum p = 1)",
+    "C02_inversion_history_free / C02_inversion_law: every index 0..F of the enumeration is admissible (1-d chains built by the factory: Boundary() and PairingToZ1d, discharged by C14_z1d_project; centred square n-d grids with Szudzik) and _max_storage >= 1; prob >= 0 (the factory clips with max(.,0)). Without it: C02_inversion_overflow_refuted (F-C02-7)",
+    "C02_bstadapted1d_law: mass is additive and non-negative on ordered intervals (discharged for the closed forms by C09), cell boundaries are ordered (C13), the left-tail mass equals the mass of the left axis cells (truncation, C01), lambda > 0, at least one point on each side of the origin",
+    "right-closed samplers (INVERSION, BSTADAPTED1D): 'never a zero-probability state' is proved for u > 0 only; u = 0 is the recorded finding F-C02-6 (C02_*_zero_uniform_refuted)",
 ]
-THEOREM_NOTES = {}
-LEVEL_TEXT = ""
-LEVEL_NOTE = ""
-TECHNIQUE = "Coq proof (induction/invariants over Q and lists) on hand-written executable models + vm_compute correspondence + implementation-only integration oracle"
+THEOREM_NOTES = {
+    "C02_bst_law": "full: any length >= 1 (length 1 after the repair 'fix: BinarySearchTree raised IndexError for a single state'); constructor total (fuel 4k+4 proved sufficient); descent = locate on the in-order leaves, each state exactly once with length p_s",
+    "C02_inversion_history_free": "full for enumerations without inadmissible index and _max_storage >= 1 (all reachable states, incl. overflow of the storage); with inadmissible indices and a full storage the statement is false: C02_inversion_overflow_refuted",
+    "C02_inversion_law": "full: right-closed step function with lengths prob(proj k); zero-probability states never returned for u > 0",
+    "C02_huffman_law": "full: whatever position Heap.insert computes; leaves of the final tree are a permutation of the states",
+    "C02_alias_law": "full: invariant (Phi)/(S)/(R) of create_alias, clean-up loops are no-ops in exact arithmetic, draw = locate on the columns, indices < K, zero-probability never",
+    "C02_bstadapted1d_law": "full for the repaired code (grid.middle) under the Section hypotheses listed in `assumptions`",
+    "C02_table_law": "full for the repaired constructor with byte and alias uniform modelled as independent; the word-reuse dependence is not in the model",
+    "C02_no_history": "immediate from the model's types (draws are maps over the tables); the substance is the two-order replay of the correspondence",
+    "C02_bstadaptednd_law": "NOT a theorem: n-d BinarySearchTreeAdapted has no Coq model (oracle only)",
+    "C02_inversion_zero_uniform_refuted / C02_bstadapted1d_zero_uniform_refuted": "vm_compute witnesses of F-C02-6 on the faithful models",
+    "C02_inversion_overflow_refuted": "vm_compute witness of F-C02-7 on the faithful model",
+}
+LEVEL_TEXT = ("Proof: 8 Coq theorems (closed under the global context, no axioms) state, for ALL probability vectors of any length >= 1 with "
+              "zeros and ties, that BinarySearchTree, HuffmanTree, AliasMethod and TableMethod are step functions of the uniform whose "
+              "intervals labelled k have total length exactly p_k (constructors total, indices in range, zero-probability states never "
+              "returned); that InversionMethod+StatesManager returns, in every reachable state (any draw history, any _max_storage >= 1), "
+              "the state of the sequential search, which is the right-closed step function with lengths prob(state); and that "
+              "BinarySearchTreeAdapted1D is the right-closed step function of the cell masses for any additive non-negative mass (never "
+              "the origin, never outside the axis). 3 further theorems are refutation witnesses of the two recorded findings (u = 0.0 "
+              "goes to a zero-probability state in the right-closed samplers; n-d INVERSION restarts at the wrong index when the storage "
+              "fills). The hand-written executable models are tied to /repo on every run by a vm_compute correspondence: tables (alias "
+              "J,q; bst array; Huffman tree pre-order; table J + embedded alias) and ~20k draws at break points -/+ one step, through the "
+              "direct constructors and through MarkovChainProcess / MarkovChainLevyCopula for every SamplingMethod, inversion histories "
+              "in 5 orders with tiny storage; plus an implementation-only oracle that integrates u -> state exactly. Partial: the n-d "
+              "BinarySearchTreeAdapted and n-d inversion with inadmissible indices are covered by oracle/correspondence only; TABLE's "
+              "reuse of one 32-bit word for byte and alias uniform and float rounding for non-dyadic vectors are not in the theorems.")
+LEVEL_NOTE = ("Trusted: Coq kernel + vm_compute; hand-written models (lists for arrays/deques, floor for np.uint, stable insertion sort for "
+              "list.sort, bisect_left loop, caches as identity) tied by exact comparison on dyadic inputs; Q arithmetic stands for float "
+              "arithmetic (exact on the dyadic inputs compared; non-dyadic inputs only by the oracle with tolerance 1e-9); the harness "
+              "step measure (c02_stepmodel.py) used to drive the public factory.")
+
+TECHNIQUE = ("Coq proof (induction / loop invariants over Q and lists, closed under the global context) on hand-written executable "
+             "models + vm_compute correspondence with the implementation + implementation-only integration oracle")
 
 D20 = 1 << 20
 
@@ -189,11 +223,16 @@ def integrate_step_function(f, hints=(), top=1.0, n0=64, depth=36):
     def addlen(lab, ln):
         lengths[lab] = lengths.get(lab, 0) + ln
 
+    budget = [400000]
+
     def rec(lo, flo, hi, fhi, d):
         if flo == fhi:
             addlen(flo, hi - lo)
             return
-        if d == 0:
+        budget[0] -= 1
+        if budget[0] < 0:
+            raise RuntimeError("integrate_step_function: more than 400000 bisection steps (the sampler is not a step function of u with few pieces)")
+        if d == 0 or hi - lo < (ONE >> 70):
             addlen(flo, (hi - lo) // 2)
             addlen(fhi, hi - lo - (hi - lo) // 2)
             return
@@ -651,14 +690,17 @@ def chains(res, rng, groups, viol):
 
 
 # ----------------------------------------------------------------------------- 2-d chain (oracle only)
-def build_chain_2d(h, half, masses1, masses2, copula_name, method):
+def build_chain_2d(h, half, masses1, masses2, copula_name, method, right=None):
+    """half points on the left of the origin and `right` (default: half) on the right, on both axes"""
     from c02_stepmodel import C02StepModel, measure_from_cell_masses
-    from rpylib.grid.spatial import CTMCUniformGrid
+    from rpylib.grid.spatial import CTMCGrid
     from rpylib.distribution import levycopula as LC
     from rpylib.model.levycopulamodel import LevyCopulaModel
     from rpylib.process.markovchain.markovchainlevycopula import MarkovChainLevyCopula
     import warnings
-    grid = CTMCUniformGrid.create_from_fixed_nb_of_points(h=h, nb_of_points=2 * half, dimension=2)
+    right = half if right is None else right
+    axis = np.array([k * h for k in range(-half, right + 1)], dtype=float)
+    grid = CTMCGrid(h=h, origin_coordinate=half, axes=[axis.copy(), axis.copy()])
     m1 = C02StepModel(measure_from_cell_masses(grid.axes[0], half, masses1))
     m2 = C02StepModel(measure_from_cell_masses(grid.axes[1], half, masses2))
     copula = {"independent": LC.IndependentComponentsCopula, "dependent": LC.DependentComponentsCopula}[copula_name]()
@@ -668,52 +710,65 @@ def build_chain_2d(h, half, masses1, masses2, copula_name, method):
     return proc, grid
 
 
-def chain_2d(res, rng, viol):
-    """2-d Levy copula chains (independent / completely dependent copula of two dyadic step margins) through the public
-    factory, INVERSION and BINARYSEARCHTREEADAPTED: implementation-only oracle (no Coq model).  Target: mass of the cell
-    of the chain's own model / intensity.  Law by integration of u -> state, no origin / out-of-grid / zero-probability
-    state, batch sample() against the single-uniform entry points, draw sequences in two orders (INVERSION also with a
-    tiny _max_storage)."""
+def chain_2d(res, rng, groups, viol):
+    """2-d Levy copula chains (independent / completely dependent copula of two dyadic step margins, centred and
+    non-centred square grids) through the public factory, INVERSION and BINARYSEARCHTREEADAPTED.
+    Implementation-only oracle: target = mass of the cell of the chain's own model / intensity; law by integration of
+    u -> state; no origin / out-of-grid / zero-probability state; batch sample() against the single-uniform entry points;
+    draw sequences in two orders, INVERSION also with a small _max_storage.  INVERSION sequences on exact chains are in
+    addition compared with Model/Inversion.v (enumeration zd2_project szudzik, inside = in the box, the probability
+    table fed as data)."""
     import itertools
     from rpylib.distribution.sampling import SamplingMethod as SM
     tier = res.tier
-    shapes = [(0.5, 1), (0.5, 2), (0.25, 3)] if tier == "quick" else [(0.5, 1), (0.5, 2), (0.25, 3), (0.25, 4), (0.125, 6)]
+    shapes = [(0.5, 1, 1), (0.5, 2, 2), (0.25, 3, 3), (0.5, 1, 3)] if tier == "quick" else \
+        [(0.5, 1, 1), (0.5, 2, 2), (0.25, 3, 3), (0.25, 4, 4), (0.125, 6, 6), (0.5, 1, 3), (0.5, 2, 4), (0.25, 3, 1)]
     tol = Fr(1, 10 ** 9)
-    for (h, half), copula_name in itertools.product(shapes, ("independent", "dependent")):
-        n = 2 * half + 1
+    g_inv2 = []
+    for (h, L, R), copula_name in itertools.product(shapes, ("independent", "dependent")):
+        n = L + R + 1
         tot = 1 << 8
         m1 = _composition(rng, tot, n - 1, zero_frac=rng.choice([0.0, 0.3]))
         m2 = _composition(rng, tot, n - 1, zero_frac=rng.choice([0.0, 0.3]))
-        masses1 = [Fr(v, tot) for v in m1[:half] + [0] + m1[half:]]
-        masses2 = [Fr(v, tot) for v in m2[:half] + [0] + m2[half:]]
-        res.bump("chain2d", f"{copula_name} {n}x{n}")
+        if L != R:      # the witness shape of F-C02-7 needs mass on the far right cells
+            m1 = [tot // (n - 1)] * (n - 1)
+            m1[0] += tot - sum(m1)
+            m2 = list(m1)
+        masses1 = [Fr(v, tot) for v in m1[:L] + [0] + m1[L:]]
+        masses2 = [Fr(v, tot) for v in m2[:L] + [0] + m2[L:]]
+        res.bump("chain2d", f"{copula_name} [-{L},{R}]^2")
         for method in (SM.INVERSION, SM.BINARYSEARCHTREEADAPTED):
             name = method.name + "-2d"
-            ctx = dict(sampler=name, copula=copula_name, h=h, half=half, masses1=[str(m) for m in masses1], masses2=[str(m) for m in masses2])
+            ctx = dict(sampler=name, copula=copula_name, h=h, left=L, right=R, masses1=[str(m) for m in masses1], masses2=[str(m) for m in masses2])
+            mk = lambda: build_chain_2d(h, L, masses1, masses2, copula_name, method, right=R)
             try:
-                proc, grid = build_chain_2d(h, half, masses1, masses2, copula_name, method)
+                proc, grid = mk()
             except Exception as e:  # noqa
                 viol(f"factory raises {type(e).__name__} for a 2-d chain with SamplingMethod.{method.name}", error=str(e)[:200], **ctx)
                 continue
             s = proc.sampling
             o = grid.origin_coordinate
             lam = float(proc.intensity_of_jumps)
+            lam_fr = Fr(lam)
+            exact = lam_fr.numerator & (lam_fr.numerator - 1) == 0       # power-of-two intensity: mass / intensity is exact
+            top = ulp_down(1.0) if exact else 1.0 - 2.0 ** -30
             target = {}
-            for st in itertools.product(range(-half, half + 1), repeat=2):
+            for st in itertools.product(range(-L, R + 1), repeat=2):
                 if st == (0, 0):
                     continue
                 c = o + st
                 v = grid[c]
                 a = grid.middle(grid.left_point(c), v)
                 b = grid.middle(v, grid.right_point(c))
-                target[st] = Fr(float(proc.model.mass(a, b))) / Fr(lam)
+                target[st] = Fr(float(max(proc.model.mass(a, b), 0) / lam))
             if abs(sum(target.values()) - 1) > tol:
-                res.notes.append(f"2-d chain {copula_name} {n}x{n}: cell masses / intensity sum to {float(sum(target.values()))} (C01/C12 matter); law compared as is")
+                res.notes.append(f"2-d chain {copula_name} [-{L},{R}]^2: cell masses / intensity sum to {float(sum(target.values()))} (C01/C12 matter); law compared as is")
 
-            if method == SM.INVERSION:
-                one = lambda u, s=s: tuple(int(x) for x in s.sample_with_u(u))
-            else:
-                one = lambda u, s=s: tuple(int(x) for x in s.sample_with_us(np.array([u], dtype=float))[0])
+            def entry(smp):
+                if method == SM.INVERSION:
+                    return lambda u: tuple(int(x) for x in smp.sample_with_u(u))
+                return lambda u: tuple(int(x) for x in smp.sample_with_us(np.array([u], dtype=float))[0])
+            one = entry(s)
 
             def check_state(st, u, extra=None):
                 if st == (0, 0) or st not in target:
@@ -724,28 +779,25 @@ def chain_2d(res, rng, viol):
                     viol(f"{name} through the factory returns a zero-probability state", u=u, got=list(st), **ctx, **(extra or {}))
 
             # batch sample() against the single-uniform entry point
-            us = [rng.randrange(0, 1 << 30) / (1 << 30) for _ in range(12)] + [0.0, ulp_down(1.0)]
+            us = [rng.randrange(0, 1 << 30) / (1 << 30) for _ in range(12)] + [0.0, top]
             orig_u = np.random.uniform
             np.random.uniform = lambda low=0.0, high=1.0, size=None: np.array(us[: size], dtype=float) * (high - low) + low
             try:
                 batch = [tuple(int(x) for x in v) for v in s.sample(size=len(us))]
             finally:
                 np.random.uniform = orig_u
-            fresh, _ = build_chain_2d(h, half, masses1, masses2, copula_name, method)
-            fs = fresh.sampling
-            fone = (lambda u: tuple(int(x) for x in fs.sample_with_u(u))) if method == SM.INVERSION else \
-                (lambda u: tuple(int(x) for x in fs.sample_with_us(np.array([u], dtype=float))[0]))
+            fone = entry(mk()[0].sampling)
             for u, st in zip(us, batch):
-                res.count(("factory-2d", name, copula_name, h, half, u), kind=f"factory {name} sample")
+                res.count(("factory-2d", name, copula_name, h, L, R, u), kind=f"factory {name} sample")
                 check_state(st, u)
                 if fone(u) != st:
                     viol(f"{name}: batch sample() and the single-uniform entry point disagree for the same uniform", u=u, batch=list(st), single=list(fone(u)), **ctx)
 
             # law
-            one(ulp_down(1.0))
+            one(top)
             hints = [float(c) for c in getattr(s, "_cumulative_probabilities", [])] + [float(c) for c in getattr(s, "_cum_ps", [])]
-            lengths, _ = integrate_step_function(one, hints=hints, n0=256)
-            res.count(("law-2d", name, copula_name, h, half, tuple(masses1), tuple(masses2)), kind=f"oracle-law-{name}")
+            lengths, _ = integrate_step_function(one, hints=hints, n0=256, top=1.0 if exact else top)
+            res.count(("law-2d", name, copula_name, h, L, R, tuple(masses1), tuple(masses2)), kind=f"oracle-law-{name}")
             for st, pr in target.items():
                 if abs(lengths.get(st, Fr(0)) - pr) > tol:
                     viol(f"{name} through the factory: total length of the uniforms sent to a state differs from mass(cell)/intensity",
@@ -755,23 +807,24 @@ def chain_2d(res, rng, viol):
             if extra:
                 viol(f"{name} through the factory: origin / out-of-grid / zero-probability state has positive length", state=list(extra[0]), **ctx)
 
-            # histories: two orders (INVERSION: also tiny _max_storage)
-            for M in ([None, 1, 2, 3, 5] if method == SM.INVERSION else [None]):
-                seq = [rng.randrange(0, 1 << 30) / (1 << 30) for _ in range(rng.choice([3, 10, 30]))]
-                outs = []
+            # histories: two orders (INVERSION: also small _max_storage)
+            storages = [None, 1, 2, 3, 5, 9, 12, 16, 20] if method == SM.INVERSION else [None]
+            for M in storages:
+                nd = rng.choice([3, 10, 30])
+                seq = [rng.randrange(0, 1 << 30) / (1 << 30) for _ in range(nd)] + [0.875 + k / 64 for k in range(4)]
+                outs, samplers = [], []
                 for order in (list(range(len(seq))), rng.sample(range(len(seq)), len(seq))):
-                    p2, _ = build_chain_2d(h, half, masses1, masses2, copula_name, method)
-                    s2 = p2.sampling
+                    s2 = mk()[0].sampling
                     if M is not None:
                         s2._max_storage = M
-                    f2 = (lambda u: tuple(int(x) for x in s2.sample_with_u(u))) if method == SM.INVERSION else \
-                        (lambda u: tuple(int(x) for x in s2.sample_with_us(np.array([u], dtype=float))[0]))
+                    f2 = entry(s2)
                     got = {}
                     for i in order:
                         got[i] = f2(seq[i])
-                        res.count(("hist-2d", name, copula_name, h, half, M, seq[i], len(got)), kind=f"{name} sequence")
+                        res.count(("hist-2d", name, copula_name, h, L, R, M, seq[i], len(got)), kind=f"{name} sequence")
                         check_state(got[i], seq[i], {"max_storage": M})
                     outs.append(got)
+                    samplers.append(s2)
                 res.bump("inversion2d_max_storage" if method == SM.INVERSION else "bstadapted2d_sequences", M)
                 diff = [i for i in range(len(seq)) if outs[0][i] != outs[1][i]]
                 if diff:
@@ -782,8 +835,15 @@ def chain_2d(res, rng, viol):
                 bad = [i for i in range(len(seq)) if outs[0][i] != ref[i]]
                 if bad and M is not None:
                     i = bad[0]
-                    viol(f"{name}: with a small _max_storage the state returned differs from the one returned with the default storage",
-                         finding="F-C02-7", max_storage=M, u=seq[i], got=list(outs[0][i]), default_storage=list(ref[i]), **ctx)
+                    viol(f"{name}: when the storage (_max_storage) fills up the enumeration restarts at the wrong index: wrong state for this uniform",
+                         finding="F-C02-7", max_storage=M, u=seq[i], got=list(outs[0][i]), with_default_storage=list(ref[i]), **ctx)
+                if method == SM.INVERSION and exact:
+                    tab = lst([f"({zlit(a_)}, {zlit(b_)}, {qlit(pr)})" for (a_, b_), pr in sorted(target.items())])
+                    draws = lst([f"({qlit(seq[i])}, ({zlit(outs[0][i][0])}, {zlit(outs[0][i][1])}))" for i in range(len(seq))])
+                    sm = samplers[0].state_manager
+                    g_inv2.append(f"({zlit(L)}, {zlit(R)}, {zlit(int(sm.max_frontier_indices))}, {tab}, {zlit(1_000_000 if M is None else M)}, "
+                                  f"{draws}, {zlit(int(sm._last_projected_index))})")
+    groups.append(("inversion2d", "Z * Z * Z * list (Z * Z * Q) * Z * list (Q * (Z * Z)) * Z", "chk_inv2d", g_inv2))
 
 
 # ----------------------------------------------------------------------------- Coq header (check functions)
@@ -854,6 +914,34 @@ Definition chk_inversion (c : list Q * Z * list (Q * Q * Q) * Q * Z * list (Q * 
       ok && qlist_eqb (i_cum st) final_cum && Z.eqb (i_lpi st) final_lpi
   end.
 
+Definition in_box (L R : Z) (s : Z * Z) : bool :=
+  ((- L <=? fst s) && (fst s <=? R) && (- L <=? snd s) && (snd s <=? R))%Z.
+Fixpoint lookup2 (t : list (Z * Z * Q)) (s : Z * Z) : Q :=
+  match t with [] => 0 | (a, b, q) :: r => if zpair_eqb (a, b) s then q else lookup2 r s end.
+Definition iout_zz (o : @iout (Z * Z)) : Z * Z :=
+  match o with Out s => s | Frontier => (999999, 0)%Z | NoOut => (888888, 0)%Z end.
+
+(* 2-d INVERSION: enumeration of the factory for dimension 2 (Szudzik on N^2 mapped to Z^2, zero omitted),
+   admissible = inside the box, probability table as data *)
+Definition chk_inv2d (c : Z * Z * Z * list (Z * Z * Q) * Z * list (Q * (Z * Z)) * Z) : bool :=
+  let '(L, R, F, tab, M, draws, final_lpi) := c in
+  let proj := zd2_project szudzik_projection2d 1 in
+  let inside := in_box L R in
+  let prob := lookup2 tab in
+  match inv_init proj inside F prob with
+  | None => false
+  | Some st0 =>
+      let fix go (st : @ist (Z * Z)) (l : list (Q * (Z * Z))) : bool * @ist (Z * Z) :=
+        match l with
+        | [] => (true, st)
+        | (u, want) :: r =>
+            let so := inv_step proj inside F prob M st u in
+            if zpair_eqb (iout_zz (snd so)) want then go (fst so) r else (false, fst so)
+        end in
+      let '(ok, st) := go st0 draws in
+      ok && Z.eqb (i_lpi st) final_lpi
+  end.
+
 Definition chk_ba1d (c : list Q * Z * list (Q * Q * Q) * Q * Q * list (Q * Z)) : bool :=
   let '(axis, o, pieces, lam, h, draws) := c in
   all_draws (ba_sample axis o mid_arith (step_mass pieces) lam h (nth 0 axis 0 - 1)) draws.
@@ -869,13 +957,15 @@ def correspond(res):
 
     direct_samplers(res, rng, groups, viol)
     chains(res, rng, groups, viol)
-    chain_2d(res, rng, viol)
+    chain_2d(res, rng, groups, viol)
 
     # ---------- Coq side: the models must compute exactly what the implementation returned ----------
     from concurrent.futures import ThreadPoolExecutor
     jobs = []
     for g, ty, chk, cases in groups:
         shard = 12 if g in ("alias", "bst", "huffman", "table") else 40
+        if not cases:
+            continue
         for k in range(0, max(len(cases), 1), shard):
             jobs.append((g, ty, chk, cases[k:k + shard], k))
     res.case_lemmas += len(jobs)
@@ -906,8 +996,86 @@ def _safe(f, job):
         return job, e
 
 
+def _direct(name, p):
+    from rpylib.distribution.variate.alias import AliasMethod
+    from rpylib.distribution.variate.binarysearchtree import BinarySearchTree
+    from rpylib.distribution.variate import huffmantree as H
+    from rpylib.distribution.variate.table import TableMethod
+    pf = [float(x) for x in p]
+    if name == "alias":
+        a = AliasMethod(pf, ident)
+        return (lambda u: int(a._draw_with_u(u))), _alias_hints(a), a
+    if name == "bst":
+        b = BinarySearchTree(pf, ident)
+        return (lambda u: int(b.sample_with_u(u))), [float(v) for v in b.bst], b
+    if name == "huffman":
+        h = H.HuffmanTree(pf, ident)
+        return (lambda u: int(H.sample_with_u(u, h.head)[0])), [float(v) for v in _huff_breaks(h.head)], h
+    t = TableMethod(pf, ident)
+    return None, None, t
+
+
 def replay(path):
+    """re-executes the recorded input on the implementation of $RPYLIB_REPO; exit code 1 = the failure is still there"""
+    from rpylib.distribution.sampling import SamplingMethod as SM
     data = json.load(open(path))
-    print(json.dumps(data, indent=1)[:4000])
-    print("replay: the witness above is re-evaluated by ./check C02 (the oracle is deterministic for VERIF_SEED)")
+    print(json.dumps({k: v for k, v in data.items() if k != "sequence"}, indent=1)[:3000])
+    what, name = data.get("what", ""), data.get("sampler", "")
+    try:
+        if name in ("alias", "bst", "huffman", "table"):
+            p = [Fr(x) if "/" in x or x.isdigit() else Fr(float(x)) for x in data["p"]]
+            f, hints, obj = _direct(name, p)
+            if "u" in data and f is not None:
+                o = f(data["u"])
+                print("replay: state for u =", data["u"], "->", o, "p[state] =", p[o] if 0 <= o < len(p) else None)
+                return 1 if not (0 <= o < len(p)) or p[o] == 0 else 0
+            if "word" in data:
+                import random as _random
+                orig = _random.getrandbits
+                _random.getrandbits = lambda nb: data["word"]
+                try:
+                    o = int(obj.sample(size=1)[0])
+                finally:
+                    _random.getrandbits = orig
+                print("replay: state for word", data["word"], "->", o)
+                return 1 if not (0 <= o < len(p)) or p[o] == 0 else 0
+            if f is not None:
+                lengths, _ = integrate_step_function(f, hints=hints)
+                s = sum(p)
+                bad = [k for k in range(len(p)) if abs(lengths.get(k, Fr(0)) - p[k] / s) > Fr(1, 10 ** 9)]
+                print("replay: states whose length differs from p:", bad[:10])
+                return 1 if bad else 0
+            return 1
+        if name.endswith("-2d"):
+            method = SM[name[:-3]]
+            m1 = [Fr(x) for x in data["masses1"]]
+            m2 = [Fr(x) for x in data["masses2"]]
+            mk = lambda: build_chain_2d(data["h"], data["left"], m1, m2, data["copula"], method, right=data["right"])[0].sampling
+            ent = (lambda s_: (lambda u: tuple(int(x) for x in s_.sample_with_u(u)))) if method == SM.INVERSION else \
+                (lambda s_: (lambda u: tuple(int(x) for x in s_.sample_with_us(np.array([u], dtype=float))[0])))
+            if data.get("finding") == "F-C02-7" or "max_storage" in data and "u" in data:
+                s1, s2 = mk(), mk()
+                s2._max_storage = data["max_storage"]
+                for v in [0.875 + k / 64 for k in range(4)] + [data["u"]]:
+                    r2 = ent(s2)(v)
+                r1 = ent(s1)(data["u"])
+                print("replay: default storage ->", r1, " _max_storage =", data["max_storage"], "->", r2)
+                return 1 if r1 != r2 else 0
+            o = ent(mk())(data["u"])
+            print("replay: state for u =", data["u"], "->", o)
+            return 1 if list(o) == data.get("got") else 0
+        if name in SM.__members__:
+            masses = [Fr(x) for x in data["masses"]]
+            proc, grid, meas = build_chain(data["h"], data["half"], masses, SM[name])
+            s = proc.sampling
+            if "u" in data and name in ("INVERSION", "BINARYSEARCHTREEADAPTED1D", "BINARYSEARCHTREE"):
+                o = int(s.sample_with_u(data["u"]))
+                print("replay: state for u =", data["u"], "->", o)
+                return 1 if o == data.get("got") else 0
+    except Exception as e:  # noqa
+        print("replay: the implementation raises", type(e).__name__, e)
+        return 1
+    print("replay: this kind of witness is re-evaluated by ./check C02 (deterministic for VERIF_SEED)")
     return 1
+
+
